@@ -1522,3 +1522,120 @@ impl<'a> Gen<'a> {
 pub fn all_prefixes(bytes: &[u8], max_len: usize) -> Vec<Vec<u8>> {
     (0..bytes.len().min(max_len)).map(|i| bytes[..i].to_vec()).collect()
 }
+
+/// `deco <Type> <opts> <offset ticks> x<hex>`: decode with `client_offset`
+pub fn run_deco(ty: &str, lim: &Lim, off: i64, bytes: &[u8]) -> (String, DecOut) {
+    let mut o = lim.options();
+    o.client_offset = chrono::TimeDelta::seconds(off / 10_000_000) + chrono::TimeDelta::nanoseconds((off % 10_000_000) * 100);
+    match Val::decode(ty, bytes, &o) {
+        None => ("bad-op".to_string(), DecOut::BadOp),
+        Some(Err(_)) => ("err".to_string(), DecOut::Err),
+        Some(Ok((v, pos))) => {
+            let re = v.try_encode().unwrap_or_default();
+            (format!("ok {} x{} = {}", pos, hex(&re), v.tree()), DecOut::Ok(v, pos))
+        }
+    }
+}
+
+/// First-byte sweeps (round 3): every value of each mask / type byte of the composite decoders, followed by
+/// valid field bytes for the fields that byte announces.  `k` enumerates 6 x 256 points; returns the type
+/// to decode as and the bytes.
+pub fn byte_sweep(k: usize) -> (&'static str, Vec<u8>) {
+    let m = (k % 256) as u8;
+    let ts = 132_000_000_000_000_000i64.to_le_bytes();
+    let s3 = [3u8, 0, 0, 0, b'a', b'b', b'c'];
+    match (k / 256) % 6 {
+        0 => {
+            // DataValue encoding mask (bits 6 and 7 are ignored by from_bits_truncate)
+            let mut b = vec![m];
+            if m & 1 != 0 {
+                b.extend_from_slice(&[0x01, 0x01]);
+            }
+            if m & 2 != 0 {
+                b.extend_from_slice(&0x8000_0000u32.to_le_bytes());
+            }
+            if m & 4 != 0 {
+                b.extend_from_slice(&ts);
+            }
+            if m & 16 != 0 {
+                b.extend_from_slice(&7u16.to_le_bytes());
+            }
+            if m & 8 != 0 {
+                b.extend_from_slice(&ts);
+            }
+            if m & 32 != 0 {
+                b.extend_from_slice(&9u16.to_le_bytes());
+            }
+            b.push(0xEE);
+            ("DataValue", b)
+        }
+        1 => {
+            // DiagnosticInfo encoding mask
+            let mut b = vec![m];
+            for (bit, v) in [(1u8, 11i32), (2, 12), (8, 13), (4, 14)] {
+                if m & bit != 0 {
+                    b.extend_from_slice(&v.to_le_bytes());
+                }
+            }
+            if m & 16 != 0 {
+                b.extend_from_slice(&s3);
+            }
+            if m & 32 != 0 {
+                b.extend_from_slice(&0x8001_0000u32.to_le_bytes());
+            }
+            if m & 64 != 0 {
+                b.push(0x00);
+            }
+            b.push(0xEE);
+            ("DiagnosticInfo", b)
+        }
+        2 => {
+            // LocalizedText mask inside a Variant
+            let mut b = vec![21, m];
+            if m & 1 != 0 {
+                b.extend_from_slice(&s3);
+            }
+            if m & 2 != 0 {
+                b.extend_from_slice(&s3);
+            }
+            b.push(0xEE);
+            ("Variant", b)
+        }
+        3 | 4 => {
+            // NodeId type byte (3) / ExpandedNodeId encoding byte (4) inside a Variant
+            let expanded = (k / 256) % 6 == 4;
+            let mut b = vec![if expanded { 18 } else { 17 }, m];
+            match if expanded { m & 0x0f } else { m } {
+                0 => b.push(7),
+                1 => b.extend_from_slice(&[2, 0x34, 0x12]),
+                2 => b.extend_from_slice(&[2, 1, 0x78, 0x56, 0x34, 0x12]),
+                3 | 5 => {
+                    b.extend_from_slice(&[1, 0]);
+                    b.extend_from_slice(&s3);
+                }
+                4 => {
+                    b.extend_from_slice(&[1, 0]);
+                    b.extend_from_slice(&[0xAB; 16]);
+                }
+                _ => b.extend_from_slice(&[1, 0, 2, 0]),
+            }
+            if expanded && m & 0x80 != 0 {
+                b.extend_from_slice(&s3);
+            }
+            if expanded && m & 0x40 != 0 {
+                b.extend_from_slice(&5u32.to_le_bytes());
+            }
+            b.push(0xEE);
+            ("Variant", b)
+        }
+        _ => {
+            // ExtensionObject body encoding byte inside a Variant
+            let mut b = vec![22, 0, 9, m];
+            if m == 1 || m == 2 {
+                b.extend_from_slice(&s3);
+            }
+            b.push(0xEE);
+            ("Variant", b)
+        }
+    }
+}
